@@ -252,12 +252,14 @@ var (
 	sU16 = absv.Spec{ID: 7, Len: 2}
 	sStr = absv.Spec{ID: 82, Len: 65535}
 	sOct = absv.Spec{ID: 313, Len: 65535} // ipHeaderPacketSection: a variable-length octet array
+	sIP4 = absv.Spec{ID: 8, Len: 4}       // sourceIPv4Address
+	sIP6 = absv.Spec{ID: 27, Len: 16}     // sourceIPv6Address
 )
 
 // stream builds the messages of connection c: a template and data messages; bad >= 0 replaces the
 // message at that position by an undecodable one of the given flavour.
 func stream(c int, ndata int, bad int, flavour int, r *rand.Rand) [][]byte {
-	msgs := [][]byte{absv.Message(1, 0, uint32(c), 2, absv.TemplateBody(256, []absv.Spec{sU8, sStr, sU16, sOct}))}
+	msgs := [][]byte{absv.Message(1, 0, uint32(c), 2, absv.TemplateBody(256, []absv.Spec{sU8, sStr, sU16, sOct, sIP4, sIP6}))}
 	for i := 1; i <= ndata; i++ {
 		var body []byte
 		for k := 0; k < 1+r.Intn(2); k++ {
@@ -274,6 +276,9 @@ func stream(c int, ndata int, bad int, flavour int, r *rand.Rand) [][]byte {
 			body = append(body, byte(on))
 			for j := 0; j < on; j++ {
 				body = append(body, byte(1+r.Intn(255)))
+			}
+			for j := 0; j < 20; j++ { // the two addresses
+				body = append(body, byte(1+r.Intn(254)))
 			}
 		}
 		msgs = append(msgs, absv.Message(2, uint32(i), uint32(c), 256, body))
@@ -418,7 +423,7 @@ func main() {
 		runCuts(m, []int{2}, "tiny")
 	}
 	// messages longer than the reader's buffer (4096 bytes): whole, in 1000-byte pieces, and cut at the buffer size
-	for _, n := range []int{4060, 4096 - 16 - 4 - 9, 4200, 20000, 65535 - 16 - 4 - 9} {
+	for _, n := range []int{4040, 4096 - 16 - 4 - 9 - 20, 4200, 20000, 65535 - 16 - 4 - 9 - 20} {
 		ms := stream(1, 1, -1, 0, rand.New(rand.NewSource(12)))
 		str := make([]byte, n)
 		for j := range str {
@@ -427,6 +432,7 @@ func main() {
 		body := append([]byte{7}, absv.VarPrefix(n)...)
 		body = append(body, str...)
 		body = append(body, 1, 2, 1, 9)
+		body = append(body, 10, 0, 0, 1, 0x20, 1, 0xd, 0xb8, 0, 0, 0, 0, 0, 0, 0, 0, 0, 0, 0, 1)
 		ms = append(ms, absv.Message(2, 2, 1, 256, body))
 		ms = append(ms, stream(1, 1, -1, 0, rand.New(rand.NewSource(13)))[1])
 		b := concat(ms)
